@@ -6,7 +6,9 @@ package c08
 
 import (
 	"context"
+	"crypto/sha1"
 	"database/sql"
+	"encoding/hex"
 	"encoding/json"
 	"fmt"
 	"os"
@@ -19,8 +21,6 @@ import (
 	"github.com/ProtonMail/gluon/db"
 	"github.com/ProtonMail/gluon/imap"
 	"github.com/ProtonMail/gluon/internal/db_impl/sqlite3"
-	"github.com/google/uuid"
-	_ "github.com/mattn/go-sqlite3"
 )
 
 // ---- the model's relations as printed by TLC ----
@@ -262,13 +262,22 @@ func newWorld(g map[string]int, order []string, maxBox int) (*world, error) {
 	}
 	raw.SetMaxOpenConns(1)
 	w.raw = raw
-	ns := uuid.MustParse("6ba7b810-9dad-11d1-80b4-00c04fd430c8")
 	for _, m := range order {
 		n := g[m]
 		ids := make([]imap.InternalMessageID, n)
 		for i := 0; i < n; i++ {
-			ids[i] = imap.InternalMessageID{UUID: uuid.NewSHA1(ns, []byte(m+"#"+strconv.Itoa(i)))}
-			w.ref[ids[i].String()] = cloneRef{m, i}
+			// a deterministic uuid per clone (the sqlite3 driver itself is registered by gluon's sqlite3 package)
+			h := sha1.Sum([]byte("c08 clone " + m + "#" + strconv.Itoa(i)))
+			h[6] = (h[6] & 0x0f) | 0x50
+			h[8] = (h[8] & 0x3f) | 0x80
+			x := hex.EncodeToString(h[:16])
+			id, err := imap.InternalMessageIDFromString(x[0:8] + "-" + x[8:12] + "-" + x[12:16] + "-" + x[16:20] + "-" + x[20:32])
+			if err != nil {
+				w.close()
+				return nil, err
+			}
+			ids[i] = id
+			w.ref[id.String()] = cloneRef{m, i}
 		}
 		w.ids[m] = ids
 	}
